@@ -124,3 +124,52 @@ META["C14"] = {
     "floors": {"quick": {"layouts_checked": 8000, "reveals": 6000, "distribution_draws": 100000, "distinct_nontrivial": 2000},
                "thorough": {"layouts_checked": 200000, "reveals": 150000, "distribution_draws": 2000000, "distinct_nontrivial": 40000}},
 }
+
+
+def post_C15(agg, info):
+    import stats
+    hists = stats.merge_hists(agg["extra"].get("hist", []))
+    moduli = [int(x) for x in (agg["extra"].get("moduli") or [[]])[0]]
+    fam = stats.Family()
+    for name, h in hists.items():
+        if name.startswith("range.thirds."):
+            m = moduli[int(name.rsplit(".", 1)[1])]
+            ceil = lambda a, b: -(-a // b)
+            cnt = [ceil((c + 1) * m, 3) - ceil(c * m, 3) for c in range(3)]
+            p, st = stats.chi2_expected(h, [c / m for c in cnt])
+            fam.add(name + f"(m={m})", p, st)
+        elif name.startswith("permpos."):
+            n = int(name.rsplit(".", 1)[1])
+            for pos in range(n):
+                p, st = stats.chi2_uniform(h[pos * n:(pos + 1) * n])
+                fam.add(f"{name}.pos{pos}", p, st)
+        else:
+            p, st = stats.chi2_uniform(h)
+            fam.add(name, p, st)
+    bad, cov = fam.decide()
+    viol = []
+    for name, p, st, _ in bad:
+        kind = ".".join(name.split("(")[0].split(".")[:2])
+        viol.append(_viol("C15|bias|" + kind, f"distribution test failed: {name} p={p:.3g} chi2={st:.1f}", info))
+    cov["histograms"] = len(hists)
+    cov["samples_per_histogram"] = {k: int(v.sum()) for k, v in hists.items()}
+    cov["statistical_reach"] = "gross bias only: modulo bias of relative size < 1 % is below what these sample sizes resolve"
+    problems = [] if hists else ["no histograms were produced"]
+    return viol, cov, problems
+
+
+META["C15"] = {
+    "level": "exploration",
+    "rule": "random call schedules of 20-200 PRF / PermutationFromPRF evaluations over 1-4 keys (incl. all-zero and one-bit-apart keys), "
+            "counters incl. 0 and 2^64-1, output types from 1 bit to 2000 bytes and nested containers, spread over 3 evaluator "
+            "instances; PRNG scripts replayed from the same seed; Random/RandomPermutation nodes; a case is one schedule / script; "
+            "non-trivial = at least 2 distinct (key, counter, type) triples observed; distinct by hash of schedule parameters. "
+            "Statistics: byte histograms, all n! outcomes of permutations n=2..5, position-wise uniformity n=6..8, three-thirds "
+            "cells of get_random_in_range at adversarial moduli",
+    "assumptions": COMMON_ASSUMPTIONS + [
+        "history monitor: the first observed answer per (key bytes, counter, type) is the model for all later observations",
+        "chi-square tests at family-wise alpha 1e-9 (Bonferroni)",
+    ],
+    "floors": {"quick": {"prf_calls": 30000, "repeat_observations": 10000, "prng_replays": 300, "stat_permutations": 50000, "distinct_nontrivial": 500},
+               "thorough": {"prf_calls": 1000000, "repeat_observations": 300000, "prng_replays": 10000, "stat_permutations": 1000000, "distinct_nontrivial": 15000}},
+}
